@@ -218,11 +218,19 @@ def _work(chunk):
     fam, ci, first, k_all, k_core = chunk
     part = Part()
     sigs = Sigs()
-    cfg = M.CONFIGS[ci]
+    cfg = M.DEFAULT_PREFIX_CONFIGS[ci - 100] if fam == 'C' else M.CONFIGS[ci]
     menu = M.config_menu(cfg)
     classes = class_table(menu)
     n = len(menu)
-    if fam == 'A':
+    if fam == 'C':
+        # every subset of the small API whose smallest element is `first`
+        pool = list(range(first + 1, n))
+        for size in range(0, n):
+            for rest in itertools.combinations(pool, size):
+                combo = (first,) + rest
+                run_node(part, sigs, cfg, ci, [menu[i] for i in combo], combo, 'C')
+        part.sample({'cfg': cfg['id'], 'family': 'C', 'c': fake.c_of(M.build_decls(menu[first:])), 'dump': 'none'})
+    elif fam == 'A':
         pool = list(range(first + 1, n))
         core_pool = [i for i in pool if menu[i]['core']]
         for size in range(0, max(k_all, k_core)):
@@ -316,6 +324,9 @@ def run(ctx):
         ext = [i for i, it in enumerate(menu) if it['id'] not in CONTEXT_IDS and it['k'] in ('fn', 'const')]
         for first in range(-1, len(ext)):
             chunks.append(('B', ci, first, b['KB'], 0))
+    for i, c in enumerate(M.DEFAULT_PREFIX_CONFIGS):
+        for first in range(len(M.config_menu(c))):
+            chunks.append(('C', 100 + i, first, 0, 0))
     full = M.menu('Foo', 'foo')
     ctx.set(rule='E1 generation tree over declaration sets. Family A: every canonical set of 1..%d declarations from the '
                  'per-configuration menu and every canonical set of 1..%d declarations from its interaction core; '
@@ -325,13 +336,18 @@ def run(ctx):
                  'it has a get-type function - with no dump / class dump (derived and flat hierarchy) / boxed dump; the '
                  'GIR is compared with the reference naming model. Canonical de-duplication: items that differ only in '
                  'an irrelevant verb are used in menu order. non-trivial = set for which the model gave at least one '
-                 'MUST (present / left out / placement) verdict'
-                 % (b['K_ALL'], b['K_CORE'], len(CONTEXT_IDS), b['KB'], len(configs)),
+                 'MUST (present / left out / placement) verdict. Family C: namespaces scanned without explicit symbol '
+                 'prefixes (%s): every subset of an %d-item API spelled with the documented default prefix, all orders '
+                 'and dump modes; the namespace c:symbol-prefixes / c:identifier-prefixes attributes are compared too '
+                 '(in every family)'
+                 % (b['K_ALL'], b['K_CORE'], len(CONTEXT_IDS), b['KB'], len(configs),
+                    ', '.join('%s->%s' % x for x in M.DEFAULT_PREFIX_NAMES), len(M.DEFAULT_PREFIX_MENU)),
             bounds={'family_A_max_set_all': b['K_ALL'], 'family_A_max_set_core': b['K_CORE'],
                     'family_B_max_extension': b['KB'], 'configurations': [c['id'] for c in M.CONFIGS],
                     'menu_full': len(full), 'menu_core': len([i for i in full if i['core']]),
                     'menu_per_config': {c['id']: len(M.config_menu(c)) for c in M.CONFIGS},
-                    'dump_modes': DUMPS})
+                    'dump_modes': DUMPS, 'family_C_namespaces': [c['id'] for c in M.DEFAULT_PREFIX_CONFIGS],
+                    'family_C_menu': M.DEFAULT_PREFIX_MENU})
     ctx.set(calibration=calibrate())
     sigs = Sigs()
     # big partitions first (family A, small first index), then seed rotation (dispatch order only)
@@ -342,7 +358,8 @@ def run(ctx):
     allcfg = set(c['id'] for c in M.CONFIGS)
     for sig in sorted(sigs.t):
         e = sigs.t[sig]
-        where = 'all' if e['cfgs'] == allcfg else '+'.join(sorted(e['cfgs']))
+        main = e['cfgs'] & allcfg
+        where = '+'.join((['all'] if main == allcfg else sorted(main)) + sorted(e['cfgs'] - allcfg))
         where += '/' + ('any-dump' if e['dumps'] == set(DUMPS) else '+'.join(sorted(e['dumps'])))
         size, key, desc, case = e['min']
         ctx.violation('%s@%s' % (sig, where),
@@ -351,7 +368,8 @@ def run(ctx):
         'inputs are symbol trees (what the C parser hands to Python), not C text',
         'declaration order: types before functions before constants; only declarations sharing a C tag are permuted',
         'the runtime dump is synthesised: it answers exactly the get-type functions the scanner asks about',
-        'default symbol prefix of a namespace = lower-case underscore form of its identifier prefix',
+        'default symbol prefix of a namespace = lower-case underscore form of its identifier prefix, a leading capital '
+        'followed by another capital being a word of its own (utils.to_underscores docstring; GUdev -> g_udev)',
         'UNSPECIFIED: top-level name collisions (scanner may abort), underscore-prefixed type names and struct tags, '
         'whether a plain function is nested under its longest-prefix type or left at top level, C types known only '
         'under another prefix of the namespace, constructor-looking names other than <type>_new / _new_* / _newv, '
